@@ -40,8 +40,8 @@ def gen_case(rnd):
             methods.append(['m', {'contracts': cs, 'inherit': bool(bases) and rnd.random() < .6}])
         classes.append({'name': nm, 'bases': bases, 'methods': methods, 'inherit_class': bool(bases) and rnd.random() < .2})      # @deal.inherit on the class: every method it can see
     queries = [[c['name'], 'm'] for c in classes if any(True for _ in [1])]
-    # every contract is a precondition or a raises contract (get_contracts lists preconditions first)
-    kinds = {str(i): ('raises' if rnd.random() < .3 else 'pre') for i in range(1, cid + 1)}
+    # every contract is a precondition, a post / ensure contract or a raises contract (get_contracts lists them in that order)
+    kinds = {str(i): rnd.choice(['pre', 'pre', 'pre', 'raises', 'raises', 'post', 'ensure']) for i in range(1, cid + 1)}
     return {'classes': classes, 'queries': queries, 'kinds': kinds, 'first_disabled': rnd.random() < .3}
 
 
@@ -145,7 +145,7 @@ def run(ctx, fr, model_available=True):
                 ids_s, _, mro_s = tail.partition(' mro=')
                 ids = [x for x in ids_s.split(',') if x]
                 kd = case.get('kinds', {})
-                ids = [x for x in ids if kd.get(x, 'pre') == 'pre'] + [x for x in ids if kd.get(x) == 'raises']
+                ids = [x for k in ('pre', 'post', 'ensure', 'raises') for x in ids if kd.get(x, 'pre') == k]
                 ml = head + '=' + ','.join(ids) + ' mro=' + mro_s
                 il = rr['line']
                 # the MRO printed by CPython ends with object, as the model's
